@@ -6,8 +6,11 @@ From Dastard Require Import Common.ZX Common.CaseLib Pipeline.Stream C08.Model C
    k_tab = the oracle table: k_tab[j] is the shift (refined index - index) the real zeroThreshold returned for the
    window G[j .. j+8) of the ground truth G = st0 data ++ delivered samples (empty when refinement is off).
    k_segsA = the delivered samples as ONE block, k_segsB = the same samples cut into blocks. *)
+(* k_also = which other trigger types the trigger state ALSO had switched on (bit 0 EdgeTrigger, bit 1 LevelTrigger,
+   bit 2 AutoTrigger, with levels / delays that fire on the stream): by TriggerData's exclusivity rule
+   (Model.trigger_data_gen) they have no effect while EdgeMulti is set, so the model's run does not depend on it. *)
 Record case := {
-  k_cfg : cfg; k_st0 : stream; k_tab : list Z;
+  k_cfg : cfg; k_also : Z; k_st0 : stream; k_tab : list Z;
   k_segsA : list segment; k_outA : outcome;
   k_segsB : list segment; k_outB : outcome }.
 
@@ -86,9 +89,9 @@ Fixpoint cut (first time period : Z) (signed : bool) (X : list Z) (lens : list Z
 
 (* [t0] = time stamp (ns) of the first delivered sample, [X] the delivered samples, [lens] the block lengths of
    delivery B (they add up to |X|); delivery A is the single block X *)
-Definition mk (c : cfg) (st0 : stream) (tab : list Z) (t0 period : Z) (signed : bool) (X : list Z)
+Definition mk (c : cfg) (also : Z) (st0 : stream) (tab : list Z) (t0 period : Z) (signed : bool) (X : list Z)
            (oa : outcome) (lens : list Z) (ob : outcome) : case :=
   let f := st_first st0 + zlen (st_data st0) in
-  {| k_cfg := c; k_st0 := st0; k_tab := tab;
+  {| k_cfg := c; k_also := also; k_st0 := st0; k_tab := tab;
      k_segsA := cut f t0 period signed X [zlen X]; k_outA := oa;
      k_segsB := cut f t0 period signed X lens; k_outB := ob |}.
